@@ -2,6 +2,7 @@ package main
 
 import (
 	"fmt"
+	"net"
 	"sort"
 	"strings"
 
@@ -167,6 +168,51 @@ func runC08(c *Ctx) {
 				m.Answer = append(m.Answer, rr)
 			}
 			c08Msg(c, "zero-values", m, false)
+		}
+	}
+	// hand-built EDNS0 options and SVCB parameters in spellings that are valid but that Unpack never produces: names without
+	// the final dot, addresses in 4- and 16-octet form, upper-case hex, empty values
+	{
+		ip4in16 := net.ParseIP("192.0.2.1")
+		opts := []dns.EDNS0{
+			&dns.EDNS0_REPORTING{Code: dns.EDNS0REPORTING, AgentDomain: "agent.example"},
+			&dns.EDNS0_REPORTING{Code: dns.EDNS0REPORTING, AgentDomain: "a"},
+			&dns.EDNS0_REPORTING{Code: dns.EDNS0REPORTING, AgentDomain: strings.Repeat("a234567.", 30) + "end"},
+			&dns.EDNS0_SUBNET{Code: dns.EDNS0SUBNET, Family: 1, SourceNetmask: 24, Address: ip4in16},
+			&dns.EDNS0_SUBNET{Code: dns.EDNS0SUBNET, Family: 1, SourceNetmask: 32, Address: ip4in16.To4()},
+			&dns.EDNS0_SUBNET{Code: dns.EDNS0SUBNET, Family: 2, SourceNetmask: 56, Address: net.ParseIP("2001:db8::1")},
+			&dns.EDNS0_NSID{Code: dns.EDNS0NSID, Nsid: "ABCDEF"},
+			&dns.EDNS0_NSID{Code: dns.EDNS0NSID, Nsid: ""},
+			&dns.EDNS0_COOKIE{Code: dns.EDNS0COOKIE, Cookie: "0102030405060708"},
+			&dns.EDNS0_EXPIRE{Code: dns.EDNS0EXPIRE, Empty: true},
+			&dns.EDNS0_EXPIRE{Code: dns.EDNS0EXPIRE, Expire: 7},
+			&dns.EDNS0_PADDING{Padding: nil},
+			&dns.EDNS0_PADDING{Padding: make([]byte, 3)},
+			&dns.EDNS0_EDE{InfoCode: 1, ExtraText: ""},
+			&dns.EDNS0_EDE{InfoCode: 1, ExtraText: "x"},
+			&dns.EDNS0_TCP_KEEPALIVE{Code: dns.EDNS0TCPKEEPALIVE, Timeout: 0},
+			&dns.EDNS0_TCP_KEEPALIVE{Code: dns.EDNS0TCPKEEPALIVE, Timeout: 100},
+			&dns.EDNS0_LOCAL{Code: 65001, Data: nil},
+		}
+		for i := range opts {
+			for _, k := range []int{1, 2} {
+				o := &dns.OPT{Hdr: dns.RR_Header{Name: ".", Rrtype: dns.TypeOPT, Class: 1232}}
+				for j := 0; j < k; j++ {
+					o.Option = append(o.Option, opts[(i+j)%len(opts)])
+				}
+				m := new(dns.Msg)
+				m.SetQuestion("q.example.", dns.TypeA)
+				m.Extra = []dns.RR{o}
+				c08Msg(c, "hand-built-options", m, false)
+			}
+		}
+		for _, txt := range []string{`x. 1 IN SVCB 1 t alpn=h2`, `x. 1 IN SVCB 1 t. ipv4hint=192.0.2.1 port=1`, `x. 1 IN HTTPS 0 alias`, `x. 1 IN SVCB 1 . ech=AAEC key65000=""`,
+			`x. 1 IN SVCB 2 t mandatory=ipv4hint,alpn alpn=h2 ipv4hint=192.0.2.2`, `x. 1 IN SVCB 1 . dohpath=/q{?dns} no-default-alpn alpn=h3`} {
+			if rr, err := dns.NewRR(txt); err == nil && rr != nil {
+				m := new(dns.Msg)
+				m.Answer = []dns.RR{rr}
+				c08Msg(c, "hand-built-options", m, false)
+			}
 		}
 	}
 	// records whose last field is empty (boundary of the pack buffer)
